@@ -1148,3 +1148,147 @@ H5K = Unit('C14', 'taurex.opacity.ktables.hdfktable:HDF5KTable._load_pickle_file
                'weights / kcoeff / ngauss of the file (the kcoeff dataset itself when not in memory), pressures the dataset p multiplied by the '
                'conversion of its declared unit to pascal (plain or CDS spelling), the file closed exactly when everything was read into memory '
                '(h5py and astropy.units abstract)')
+
+
+# ------------------------------------------------------------------ discovery: which files become which molecule, with which settings
+from pyvc.engine import FuncV
+
+_DISC_FILES = {
+    'PickleOpacity': (('*.pickle',), ['H2O.R15000.TauREx.pickle', '1H2-16O__POKAZATEL.R10000.pickle', 'CH4.pickle', 'notes.txt']),
+    'ExoTransmitOpacity': (('*.dat',), ['opacH2O.dat', 'opacTiO.dat', 'readme.md']),
+    'PickleKTable': (('*.pickle',), ['H2O_R100.ktable.pickle', 'CO2.R200.pickle', 'table.h5']),
+    'HDF5KTable': (('*.hdf5', '*.h5'), ['H2O_R100.hdf5', '12C-16O2_x.h5', 'junk.pickle']),
+    'HDF5Opacity': (('*.h5', '*.hdf5'), ['a.h5', 'b.hdf5', 'c.dat']),
+}
+
+
+def _disc_expected(clsname, fx):
+    import fnmatch
+    import re
+    pats, files = _DISC_FILES[clsname]
+    if fx['path'] is None:
+        return []
+    interp = fx['interp'] or 'linear'
+    san = lambda s_: ''.join(''.join(t) for t in re.findall('([A-Z][a-z]?)([0-9]*)', s_))
+    out = []
+    for pat in pats:
+        for f in files:
+            if not fnmatch.fnmatch(f, pat):
+                continue
+            full = fx['path'] + '/' + f
+            stem = f.rsplit('.', 1)[0]
+            if clsname == 'PickleOpacity' or clsname == 'PickleKTable':
+                out.append((san(stem.split('.')[0]), [full, interp]))
+            elif clsname == 'ExoTransmitOpacity':
+                out.append((san(stem[4:]), [full, interp]))
+            elif clsname == 'HDF5KTable':
+                out.append((san(stem.split('_')[0]), [full, interp]))
+            else:
+                out.append(('name-in:' + full, [full, interp, True]))
+    return out
+
+
+def _disc_unit(modname, clsname, pathkey):
+    pats, files = _DISC_FILES[clsname]
+
+    def params(c):
+        return dict(cls=FuncV('class', clsname) if c.mode != 'conc' else dict(__obj__='class'))
+
+    def h_gc_get(ex, st, o, args, kwargs, node):
+        fx = ex.c.fixed
+        _ev(st, 'setting', args[0])
+        if args[0] == pathkey:
+            return fx['path']
+        if args[0] == 'xsec_interpolation':
+            return fx['interp']
+        if args[0] == 'xsec_in_memory':
+            return fx.get('mem')
+        raise _Raise(st, ExcV('KeyError', 0))
+
+    def h_glob(ex, st, args, kwargs, node):
+        import fnmatch
+        pat = args[0]
+        d, _, p = pat.rpartition('/')
+        _ev(st, 'glob', pat)
+        return st.alloc(ex.c, PyList([d + '/' + f for f in files if fnmatch.fnmatch(f, p)]))
+
+    def h_path(ex, st, args, kwargs, node):
+        return AbsObj('Path', args[0], {'stem': args[0].rsplit('/', 1)[-1].rsplit('.', 1)[0]})
+
+    def h_new_h5(ex, st, args, kwargs, node):
+        _ev(st, 'open-to-read-name', args[0], kwargs.get('interpolation_mode'), kwargs.get('in_memory'))
+        return AbsObj('HDF5Opacity', args[0], {'moleculeName': 'name-in:' + args[0]})
+
+    def post(c, v0, v1, r):
+        fx = c.fixed if c.mode != 'conc' else c.values
+        want = _disc_expected(clsname, fx)
+        if c.mode == 'conc':
+            got = [(k, list(v)) for k, v in r]
+        else:
+            heap = c.raw['state'].heap
+            ret = c.raw['ret']
+            got = None
+            if isinstance(ret, Ref) and isinstance(heap[ret.id], PyList):
+                got = []
+                for it in heap[ret.id].items:
+                    k, v = it
+                    got.append((k, list(heap[v.id].items) if isinstance(v, Ref) else v))
+        d = {'every_matching_file_under_the_configured_path_listed_under_its_sanitised_name_with_the_current_mode': got == want}
+        if c.mode != 'conc':
+            globs = [e[1] for e in (c.trace or []) if e[0] == 'glob']
+            d['looks_only_under_the_configured_path'] = globs == ([] if fx['path'] is None else [fx['path'] + '/' + p for p in pats])
+        return d
+
+    def native(c, p):
+        import importlib
+        import glob as G
+        import fnmatch
+        from pyvc.unit import patched
+        from taurex.cache import GlobalCache
+        fx = c.values
+        K = getattr(importlib.import_module(modname), clsname)
+        gc = GlobalCache()
+        saved = {k: gc[k] for k in (pathkey, 'xsec_interpolation', 'xsec_in_memory')}
+
+        def fake_glob(pat, *a, **k):
+            d, _, q = pat.rpartition('/')
+            return [d + '/' + f for f in files if fnmatch.fnmatch(f, q)]
+        real = G.glob
+        G.glob = fake_glob
+        gc[pathkey], gc['xsec_interpolation'], gc['xsec_in_memory'] = fx['path'], fx['interp'], fx.get('mem')
+        try:
+            if clsname == 'HDF5Opacity':
+                class _Fake:
+                    def __init__(self, f, interpolation_mode=None, in_memory=None):
+                        self.moleculeName = 'name-in:' + f
+                import taurex.opacity.hdf5opacity as M
+                real_cls = M.HDF5Opacity
+                M.HDF5Opacity = _Fake
+                try:
+                    r = real_cls.discover.__func__(real_cls)
+                finally:
+                    M.HDF5Opacity = real_cls
+            else:
+                r = K.discover()
+        finally:
+            G.glob = real
+            for k, v in saved.items():
+                gc[k] = v
+        return r, p
+    cases = [dict(path=pth, interp=i) for pth in (None, '/data/xsec') for i in (None, 'exp', 'linear')]
+    if clsname == 'HDF5Opacity':
+        cases = [dict(cs, mem=m) for cs in cases for m in (None, False)]
+    ab = {'new:GlobalCache': lambda ex, st, args, kwargs, node: AbsObj('GlobalCache', 'g', {}), 'GlobalCache.__getitem__': h_gc_get,
+          'call:glob': h_glob, 'call:join': lambda ex, st, args, kwargs, node: '/'.join(args), 'call:Path': h_path, 'new:HDF5Opacity': h_new_h5}
+    return Unit('C14', '%s:%s.discover' % (modname, clsname), params, post=post, cases=cases, bounds=[{}], abstract=ab, native=native,
+                gen=lambda rng: dict(rng.choice(cases)), short=clsname + '.discover',
+                doc='discovery: nothing when no path is configured; otherwise every file under the configured path that matches this reader\'s '
+                    'pattern(s) is listed once, under the sanitised molecule name taken from its file name (HDF5 cross-sections: from the name '
+                    'stored in the file), with the file and the interpolation mode configured AT THIS MOMENT (linear when none); files are '
+                    'enumerated (isotopologue prefixes, suffixes, foreign files), glob / os.path / pathlib / GlobalCache abstract, the regular '
+                    'expression of sanitize_molecule_string evaluated by Python\'s own re on the concrete names')
+
+
+DISC = [_disc_unit('taurex.opacity.pickleopacity', 'PickleOpacity', 'xsec_path'), _disc_unit('taurex.opacity.exotransmit', 'ExoTransmitOpacity', 'xsec_path'),
+        _disc_unit('taurex.opacity.ktables.picklektable', 'PickleKTable', 'ktable_path'), _disc_unit('taurex.opacity.ktables.hdfktable', 'HDF5KTable', 'ktable_path'),
+        _disc_unit('taurex.opacity.hdf5opacity', 'HDF5Opacity', 'xsec_path')]
